@@ -58,8 +58,11 @@ pub fn build_cases(w: &World, thorough: bool) -> Vec<Case> {
     let at2: Vec<X> = if thorough { at.clone() } else { at.iter().take(6).cloned().collect() };
     let l2 = level2(&l1, &at2);
     let mut cases = vec![];
-    for e in l1.iter().chain(l2.iter()) {
+    for e in l1.iter() {
         cases.push(Case { code: e.render(), expect: inf.infer(e), family: "expression" });
+    }
+    for e in l2.iter() {
+        cases.push(Case { code: e.render(), expect: inf.infer(e), family: "expression (depth 2)" });
     }
     // composite constant exponents (exact rational arithmetic in the reference)
     {
@@ -271,8 +274,28 @@ pub fn check(rep: &mut Report) {
 
     // a rejected input is rejected as a whole: nothing printed, nothing defined
     let obs0 = static_obs(&w.ctx);
-    let step = (rejected_cases.len() / rep.tier.pick(600, 4000)).max(1);
-    let subset: Vec<usize> = rejected_cases.iter().step_by(step).copied().collect();
+    // exhaustive over: every rejected depth-1 expression, every rejected definition form (functions,
+    // units, derived dimensions) and the rejected annotated lets of single-token expressions; the
+    // thorough tier adds all rejected annotated lets and the rejected constant-exponent expressions
+    let thorough = rep.tier == Tier::Thorough;
+    let subset: Vec<usize> = rejected_cases
+        .iter()
+        .copied()
+        .filter(|&i| match cases[i].family {
+            "expression (depth 2)" => false,
+            "annotated let" => thorough || !cases[i].code.lines().next().unwrap_or("").split(" = ").nth(1).unwrap_or("").contains([' ', '(']),
+            "constant exponent expression" => thorough,
+            _ => true,
+        })
+        .collect();
+    let probe_names = ["ok_one", "ok_two", "va", "uq", "ok_one + 1 m", "2 uv", "vq"];
+    let probes0: Vec<String> = probe_names
+        .iter()
+        .map(|p| {
+            let mut c = w.ctx.clone();
+            run(&mut c, p).fingerprint()
+        })
+        .collect();
     let atom_outs: Vec<Result<(), String>> = par_map(subset.len(), || (), |_, k| {
         let bad = &cases[subset[k]].code;
         for pos in 0..3 {
@@ -293,10 +316,13 @@ pub fn check(rep: &mut Report) {
             if static_obs(&ctx) != obs0 {
                 return Err(format!("the rejected input changed the session: {}", crate::obs::first_diff(&obs0, &static_obs(&ctx))));
             }
-            for name in ["ok_one", "ok_two", "va", "uq"] {
+            // every name the rejected input would have defined must be exactly as unknown as before
+            // (to the type checker, too: an `is_ok` test would take a crash for "not defined")
+            for (name, before) in probe_names.iter().zip(probes0.iter()) {
                 let mut c2 = ctx.clone();
-                if run(&mut c2, name).is_ok() {
-                    return Err(format!("`{name}` is defined after the input was rejected"));
+                let after = run(&mut c2, name).fingerprint();
+                if &after != before {
+                    return Err(format!("after the rejected input `{name}` gives {after} (before: {before})"));
                 }
             }
         }
@@ -320,7 +346,7 @@ pub fn check(rep: &mut Report) {
         }
     }
     rep.set("atomicity_cases", json!(subset.len() * 3));
-    rep.rule = "every expression of depth <= 2 over a collision alphabet of units/variables with + - * / -> ^(rational) unary minus, conditionals, lists and calls of inferred, annotated and generic functions, WITHOUT a well-typedness filter (so every mis-dimensioned variant is present); the same expressions under 6 annotations, as unit and derived-dimension definitions, inside 9 function bodies with every call argument and every (parameter, return) annotation; rejected programs embedded at every position of a multi-statement input; reference = independent dimensional analysis from the units' run-time definitions; non-trivial = programs the reference rejects".into();
+    rep.rule = "every expression of depth <= 2 over a collision alphabet of units/variables with + - * / -> ^(rational) unary minus, conditionals, lists and calls of inferred, annotated and generic functions, WITHOUT a well-typedness filter (so every mis-dimensioned variant is present); the same expressions under 6 annotations, as unit and derived-dimension definitions, inside 9 function bodies with every call argument and every (parameter, return) annotation; every rejected depth-1 expression and definition form embedded at every position of a multi-statement input (nothing printed, session observation unchanged, every name the input would define exactly as unknown as before); reference = independent dimensional analysis from the units' run-time definitions; non-trivial = programs the reference rejects".into();
     rep.assumptions = vec![
         "inputs outside the property's quantifier (polymorphic zero in products/generic arguments, lists as quantities) are classified by the reference and not judged".into(),
         "generic functions are compared at call sites with concrete argument dimensions".into(),
